@@ -67,7 +67,10 @@ def replay_case(case, clauses, judge=None):
         if judge is not None:
             out += [viol(fp, what, dict(cfg=cfg, path=p)) for fp, what, p in judge(cfg, res)]
     else:
-        outcome, vs, run = sched.run_path(cfg, path, default=bool(cfg.get("stateless")))
+        if cfg.get("stateless"):
+            outcome, vs, run = sched.run_path(cfg, path, default=bool(cfg.get("stateless")))
+        else:
+            outcome, vs, run = sched.run_path_reentrant(cfg, path)
         if judge is not None:
             res = dict(outcomes={}, violations=vs, nonfinal=[(outcome, path)] if outcome[0] not in ("done", "pause") else [], terminals=1, final_outcome=outcome)
             out += [viol(fp, what, dict(cfg=cfg, path=p)) for fp, what, p in judge(cfg, res)]
